@@ -9,6 +9,7 @@ import TmVerif.Driver.EscapeCmd
 import TmVerif.Driver.ListingCmd
 import TmVerif.Driver.LoadCmd
 import TmVerif.Driver.LoopEnvCmd
+import TmVerif.Driver.E2ECmd
 
 open TmVerif TmVerif.Proto
 
@@ -42,6 +43,9 @@ def handleLine (st : DriverState) (line : String) : DriverState × String :=
     | some r => (st, r)
     | none =>
     match LoadCmd.handle toks with
+    | some r => (st, r)
+    | none =>
+    match E2ECmd.handle st.layout toks with
     | some r => (st, r)
     | none => (st, "bad-request")
 
